@@ -35,7 +35,8 @@ ASSUMPTIONS = ["TSV round trips go through save_as_dataframes/load_schema on fil
 BASES = ["8.3.0", "8.2.0", "testlib_2.0.0", "score_2.0.0"]
 DESC_CHARS = ["plain words", "a = b", "it's \"quoted\"", "'''bold'''", "café über", "semi; colon: dash - ok",
               "trailing dot.", "(parenthesised)", "50% of x/y", "a, b and c", "x\\y", "#hash *star* <tag>", "  padded  ",
-              "line\u2028separator", "paragraph\u2029separator", "no-break\u00a0space"]
+              "line\u2028separator", "paragraph\u2029separator", "no-break\u00a0space",
+              "\"Quoted\" at the start", "'single' at the start", "ends with a \"quote\""]
 BOOL_ATTRS = ["extensionAllowed", "requireChild", "tagGroup", "topLevelTagGroup", "unique", "reserved"]
 
 
